@@ -47,7 +47,7 @@ type fnResult struct {
 }
 
 func (w *world) newCtx(con *Contract, fn *ssa.Function, mode string) *ctx {
-	return &ctx{w: w, con: con, fn: fn, mode: mode, seen: map[string]bool{}, hinfo: map[string]heapInfo{}, skolem: map[string]val{}, params: map[string]val{},
+	return &ctx{w: w, con: con, fn: fn, mode: mode, seen: map[string]bool{}, hinfo: map[string]heapInfo{}, skolem: map[string]val{}, params: map[string]val{}, lastStoreOf: map[string]string{},
 		siteOrd: map[string]int{}, maxPaths: 6000, alias: map[string]string{}, assumed: map[string]bool{}, depthCap: 6,
 		cellRootType: map[int]types.Type{}, typeIDs: map[string]int{}, lastAllocType: map[string]types.Type{}, memo: map[string][]memoEntry{}, knownLen: map[string]int{}, ghostConst: map[string]term{}}
 }
@@ -217,6 +217,11 @@ func (w *world) verifyFunc(con *Contract, fn *ssa.Function, mode string, variant
 	for key := range con.ClosureLoops {
 		if strings.HasSuffix(key, ":0") && !x.siteHit["range:"+strings.TrimSuffix(key, ":0")] {
 			x.fail("loop %s: no table Range over that closure is reached in %s", key, con.Target)
+		}
+	}
+	for name := range con.SiteAssumes {
+		if !x.siteHit["assume:"+name] {
+			x.fail("site %s: assume: no call of %s is reached in %s", name, name, con.Target)
 		}
 	}
 	for name := range con.CbInvs {
